@@ -645,6 +645,7 @@ def run_coldsched(shard, mon, S, p):
             "from vf import env, calls, judge\n"
             "from vf.mon.sched import Scheduler\n"
             "S = judge.lib()\n"
+            "calls.capture_warnings()\n"
             "p = json.load(open(sys.argv[1]))\n"
             "a, b, k = int(sys.argv[2]), int(sys.argv[3]), int(sys.argv[4])\n"
             "s = Scheduler(env.PKG, 'line'); s.install()\n"
